@@ -39,7 +39,7 @@ def run(ctx):
     ctx.coverage["rule"] = ("single injected faults on the real daemon: one failed SQL statement (every distinct call site first) or one failed factomd request (stratified by "
                             "method and per-block request count) of a scenario chain, plus pairs; the daemon then runs on and must reach the fault-free ledger; "
                             "each fault is a distinct non-trivial case")
-    ctx.proof_stage(extra_targets=["Lemmas/SyncLemmas.vo", "Lemmas/SitesLemmas.vo", "Refuted/C10.vo"])
+    ctx.proof_stage(extra_targets=["Lemmas/SyncLemmas.vo", "Lemmas/SitesC10.vo", "Refuted/C10.vo"])
     fault(ctx, ["corners"] if ctx.tier == "quick" else ["corners", "eras", "staking"], 70 if ctx.tier == "quick" else 500, 4 if ctx.tier == "quick" else 40)
 
 
